@@ -73,6 +73,14 @@ CLAIMED = {
             "representation in the first size bytes and every later byte unchanged; no slice/assert inside the serializers can fire "
             "(encoders modelled as zip(chunks_exact_mut(2), src) over the whole remaining slice, so the stop is proved).",
             "hex-simd encode by contract; buffers as lists; hand model tied by the BUF suite (every length 0..N+64)"),
+    "C15": ("Theorems for every byte sequence / byte array, every variant and every codec configuration: the parser with the strict "
+            "gates accepts exactly what the same parser without them accepts with, in addition, length code < 170 and (48-bucket "
+            "variant) checksum <= 48, and returns the same value; an input rejected only for one of these reasons reports "
+            "InvalidChecksum resp. LengthIsTooLarge (checksum gate first).  HEADLINE generated_survive_strict_roundtrip: whatever "
+            "finalize returns for any pieces, any of the 32 option settings, any generator configuration and any std-conforming "
+            "selection is a well-formed value passing both gates, and parses back (text, either prefix; binary) under ANY parser "
+            "configuration, strict included -- via C01's refinement theorem and an invariant of the reference checksum fold.",
+            "harness built with feature strict-parser; select_nth_unstable by contract; constants 170 / 48 regenerated from the source"),
 }
 
 NA_REASON = {
